@@ -200,7 +200,7 @@ void fast_binary_dilate_erode_2d(numpy::aligned_array<bool> res, const numpy::al
             const bool* in = array.data(y + dy);
             numpy::index_type n = Nx - t_abs(dx);
             if (dx > 0) {
-                for (numpy::index_type i = 0; i != (dx-1); ++i) {
+                for (numpy::index_type i = 0; i != dx; ++i) {
                     if (is_erosion) {
                         out[Nx-i-1] &= in[Nx-1];
                     } else {
